@@ -25,6 +25,8 @@ def negate(c):
             return ('cmp', NEG[op], a, b)
         # not(a < b) == b <= a ; not(a <= b) == b < a
         return ('cmp', NEG[op], b, a)
+    if h == 'const':
+        return ('const', not c[1])
     pairs = {'present': 'absent', 'absent': 'present', 'ok': 'err', 'err': 'ok', 'true': 'false', 'false': 'true',
              'is': 'isnot', 'isnot': 'is'}
     return (pairs[h],) + tuple(c[1:])
